@@ -138,7 +138,7 @@ func NewParser(srcPath, dstPath string) (*Parser, error) {
 	}
 
 	return &Parser{
-		srcPath: fileSet.Position(fileSrc.Pos()).Filename,
+		srcPath: fileSet.File(fileSrc.Pos()).Name(),
 		fset:    fileSet,
 		file:    fileSrc,
 		pkg:     pkgs[0],
